@@ -267,6 +267,15 @@ def run(ctx, report: Report) -> None:
         raise AnalysisError('parse_pseudo_class_custom: recursive CSSParser(...) call not found (anchor vanished)')
     guarded = any(isinstance(n, ast.If) and 'isinstance' in unparse(n.test) and any(r in ast.walk(n) for r in rec)
                   for n in ast.walk(cfn))
+    for c in rec:
+        cust = [kw.value for kw in c.keywords if kw.arg == 'custom'] or c.args[1:2]
+        shared = bool(cust) and unparse(cust[0]) == 'self.custom'
+        r4.instance({'recursive_call': unparse(c)[:90], 'shares_memo_table': shared}, key='custom-share')
+        r4.obligation(shared)
+        if not shared:
+            r4.violation('css_parser.CSSParser.parse_pseudo_class_custom shared-table', cmod.where(c),
+                         'the nested parser does not receive self.custom itself: definitions compiled deeper down are '
+                         'thrown away, so layered aliases are recompiled once per reference (exponential in the depth)')
     if not stores or not guarded:
         r4.violation('css_parser.CSSParser.parse_pseudo_class_custom memo', cmod.where(cfn),
                      'the compiled custom selector is not written back to self.custom (or the isinstance guard is gone): '
